@@ -176,6 +176,11 @@ def gen_prelude(rng, case=None, force=None):
             errs = [unbits(b) for b in case["errs"]]
             edits = [gen_edit(rng, case["n_meas"], errs, case.get("raw", {}))
                      for _ in range(rng.choice([1, 1, 2]))]
+            if case.get("rho") and rng.random() < 0.5:
+                # the correlations between the sources change too: every one of them is set again,
+                # scaled by t in [0, 1] (t R + (1 - t) I stays positive definite when R is; a jointly
+                # non-positive-definite assignment may become positive definite -- the model decides)
+                edits.append([-1, "rho-scale", rng.choice([0.5, 0.25, 0.0, 0.75])])
             how = rng.choice(["mc", "switch", "switch", "switch-other"])
             out.append([k, how, edits, rng.random() < 0.5, rng.random() < 0.3])
             continue
@@ -223,9 +228,14 @@ def gen_overflow_case(rng, sizes):
             "pre": gen_prelude(rng)}
 
 
+SAFE_OPS = ["add", "sub", "mul", "neg", "exp", "sin", "cos", "atan"]     # defined everywhere
+
+
 def gen_case(rng, sizes, force_kind=None, force_pre=None):
     if force_kind == "overflow":
         return gen_overflow_case(rng, sizes)
+    if force_kind == "zerocentre":
+        return gen_zerocentre_case(rng, sizes, force_pre)
     need3 = force_kind in ("near", "nonpd", "partial", "zerosigma", "cancel")
     target = 3 if need3 else (2 if force_kind == "unit" else rng.choice([1, 2, 2, 3, 3, 3]))
     while True:
@@ -313,6 +323,54 @@ def gen_case(rng, sizes, force_kind=None, force_pre=None):
     return c
 
 
+def gen_zerocentre_case(rng, sizes, force_pre=None):
+    """'all central values and uncertainties': a source at EXACTLY 0 with a positive uncertainty,
+    or with an uncertainty larger than its value (sigma/|mu| up to 5) -- formulas of operators that
+    are defined everywhere, so that every draw counts"""
+    while True:
+        c = exprgen.gen_case(rng, max_ops=4, max_meas=3, allow_pairs=False, allow_corr=False,
+                             ops=SAFE_OPS)
+        if c is not None:
+            break
+    for v in range(c["n_meas"]):
+        if v not in used_vars(c):
+            c["nodes"].append(["bin", rng.choice(["add", "sub", "mul"]), c["root"], v])
+            c["root"] = len(c["nodes"]) - 1
+    n = c["n_meas"]
+    vals = [unbits(b) for b in c["vals"]]
+    errs = []
+    z = rng.randrange(n)
+    for i in range(n):
+        if i == z or rng.random() < 0.3:
+            if rng.random() < 0.6:
+                vals[i] = rng.choice([0.0, 0.0, -0.0])
+                errs.append(rng.choice([0.5, 1.0, 0.1, round(rng.uniform(0.05, 2), 3)]))
+            else:
+                vals[i] = rng.choice([1, -1]) * 10 ** rng.uniform(-2, 0.3)
+                errs.append(abs(vals[i]) * rng.uniform(0.5, 5))
+        else:
+            errs.append(abs(vals[i]) * 10 ** rng.uniform(-3, math.log10(0.5)))
+    c["vals"] = [bits(v) for v in vals]
+    c["errs"] = [bits(e) for e in errs]
+    used = used_vars(c)
+    rho = []
+    if len(used) == 2 and rng.random() < 0.5:
+        rho = [[used[0], used[1], bits(rng.uniform(-0.9, 0.9))]]
+    elif len(used) == 3 and rng.random() < 0.5:
+        R = random_pd(rng, 3)
+        rho = [[used[i], used[j], bits(R[i][j])] for i in range(3) for j in range(i + 1, 3)]
+    c["rho"] = rho
+    c["kind"] = "zerocentre"
+    c["raw"], c["rawsel"] = {}, {}
+    N = rng.choice(sizes)
+    c["per"] = N if rng.random() < 0.5 else 0
+    c["global"] = rng.choice([5, 11, 50]) if c["per"] else N
+    c["method"] = rng.choice(["global", "value"])
+    c["npseed"] = rng.randrange(2 ** 32)
+    c["pre"] = gen_prelude(rng, c, force=force_pre)
+    return c
+
+
 # ---------------------------------------------------------------------------------------------
 # running the library with recorded draws
 
@@ -332,7 +390,7 @@ def apply_edit(m, ed):
         getattr(m, field)()
 
 
-def run_prelude(q, r, case, meas=None, cap=None):
+def run_prelude(q, r, case, meas=None, cap=None, wlist=None):
     """the history before the judged read; returns the (per-quantity, global) sample size that is
     configured at the end, whether an empty simulation was met, and `due`: the number of recorded
     draw calls at the last recalculate() that followed a change of a source (the stored simulation
@@ -340,6 +398,8 @@ def run_prelude(q, r, case, meas=None, cap=None):
     no range."""
     per, glob = case["per"], case["global"]
     due = 0
+    rho_now = [[i, j, unbits(b)] for i, j, b in case["rho"]]     # the correlations in force
+    wmark = [0]
     ev = r._DerivedValue__evaluators["monte-carlo"]
     empty = [False]
 
@@ -441,9 +501,16 @@ def run_prelude(q, r, case, meas=None, cap=None):
                 else:
                     q.set_error_method(q.ErrorMethod.DERIVATIVE)
             for ed in edits:
-                apply_edit(meas[ed[0]], ed)
+                if ed[1] == "rho-scale":
+                    for ent in rho_now:
+                        ent[2] = ent[2] * ed[2]
+                        q.set_correlation(meas[ent[0]], meas[ent[1]], ent[2])
+                else:
+                    apply_edit(meas[ed[0]], ed)
             r.recalculate()
             due = len(cap.calls) if cap is not None else 0
+            if any(ed[1] == "rho-scale" for ed in edits) and wlist is not None:
+                wmark[0] = len(wlist)     # warnings about the OLD correlation assignment do not count
             if how != "mc":
                 if read_deriv:
                     try:      # the derivative method refuses some inputs on purpose (see "method")
@@ -466,7 +533,7 @@ def run_prelude(q, r, case, meas=None, cap=None):
                 r.recalculate()
         else:
             raise KeyError(k)
-    return per, glob, empty[0], due
+    return per, glob, empty[0], due, rho_now, wmark[0]
 
 
 def observe(q, case):
@@ -501,8 +568,10 @@ def observe(q, case):
                 r.error_method = q.ErrorMethod.MONTE_CARLO
             if case["per"]:
                 r.mc.sample_size = case["per"]
-            per_now, glob_now, empty_seen, due = run_prelude(q, r, case, meas, cap)
+            per_now, glob_now, empty_seen, due, rho_now, wmark = run_prelude(q, r, case, meas, cap, w)
+            out["wmark"] = wmark
             out["per_final"], out["global_final"], out["due"] = per_now, glob_now, due
+            out["rho_eff"] = rho_now
             # the normal model the judged read is about: the CURRENT values and uncertainties
             out["vals_eff"] = [float(m.value) for m in meas]
             out["errs_eff"] = [float(m.error) for m in meas]
@@ -520,17 +589,17 @@ def observe(q, case):
             out["size_reported"] = int(r.mc.sample_size)
         except Exception as e:  # noqa: BLE001
             out["exception"] = "{}: {}".format(type(e).__name__, e)
-    out["warned"] = any(M.FALLBACK_TEXT in str(x.message) for x in w)
+    out["warned"] = any(M.FALLBACK_TEXT in str(x.message) for x in w[out.get("wmark", 0):])
     out["calls"] = cap.calls
     M.reset(q)
     return out
 
 
-def expected_R(case, order):
+def expected_R(case, order, rho_eff=None):
     errs = [unbits(b) for b in case["errs"]]
     rho = {}
-    for i, j, r in case["rho"]:
-        rho[(i, j)] = rho[(j, i)] = unbits(r)
+    for i, j, r in (rho_eff if rho_eff is not None else [[i, j, unbits(b)] for i, j, b in case["rho"]]):
+        rho[(i, j)] = rho[(j, i)] = r
     R = []
     for i in order:
         row = []
@@ -598,10 +667,11 @@ def judge(case, o, m, failures, dist):
     k = len(order)
     batch = last_batch(o)
     # the correlation matrix the library builds is the gated matrix of what was set
-    if o["R"] != expected_R(case, order):
+    if o["R"] != expected_R(case, order, o.get("rho_eff")):
         failures.append(dict(base, signature="c02:corr-matrix", what="get_correlation over the "
                              "sources is not the gated matrix of the correlations that were set",
-                             impl=o["R"], expected=expected_R(case, order), clause="correlations"))
+                             impl=o["R"], expected=expected_R(case, order, o.get("rho_eff")),
+                             clause="correlations"))
         return True, False
     # draws: one standard-normal array per source, of the configured size
     want = m["size"]
@@ -721,6 +791,7 @@ def run(ctx, n_cases, sizes, ref=False, cases=None, force_kind=None, force_pre=N
         dist["sources:{}".format(len(o.get("order", [])))] += 1
         dist["size:{}".format(c["per"] or c["global"])] += 1
         dist["size-per-quantity" if c["per"] else "size-global"] += 1
+        dist["monte-carlo-method-set-" + ("globally" if c["method"] == "global" else "on-the-result")] += 1
         dist["repeated-measurement-sources:{}".format(len(c.get("raw", {})))] += 1
         for op in c.get("pre", []):
             dist["history-before-read:" + op[0]] += 1
@@ -729,7 +800,8 @@ def run(ctx, n_cases, sizes, ref=False, cases=None, force_kind=None, force_pre=N
                     "mc": "under-monte-carlo", "switch": "while-switched-to-derivative",
                     "switch-other": "other-switch-route"}[op[1]]] += 1
                 for ed in op[2]:
-                    dist["history-before-read:edit-recalc:source-" + ed[1]] += 1
+                    dist["history-before-read:edit-recalc:" + (
+                        "correlations-rescaled" if ed[1] == "rho-scale" else "source-" + ed[1])] += 1
             if op[0] == "pin-global":
                 dist["history-before-read:pin-global:" + (
                     "recalculate" if op[3] else "no-recalculate")] += 1
@@ -831,6 +903,7 @@ def correspond(ctx):
     for kind, n in (("nonpd", ctx.n(30, 400)), ("unit", ctx.n(12, 150)), ("near", ctx.n(20, 300)),
                     ("zerosigma", ctx.n(20, 300)), ("overflow", ctx.n(12, 200)),
                     ("cancel", ctx.n(30, 400)), ("partial", ctx.n(15, 200)),
+                    ("zerocentre", ctx.n(30, 400)),
                     ("pre:edit-recalc", ctx.n(50, 600)), ("pre:pin-global", ctx.n(30, 400))):
         r2 = run(ctx, n, sizes, **({"force_pre": kind[4:]} if kind.startswith("pre:") else
                                     {"force_kind": kind}))
@@ -950,7 +1023,7 @@ def _reference_once(case, o):
     if len(o["samples"]) > want:
         return dict(base, signature="c02:sample-size", what="more stored samples than the configured "
                     "sample size", impl=len(o["samples"]), expected=want)
-    R = np.array(expected_R(case, order), dtype=float)
+    R = np.array(expected_R(case, order, o.get("rho_eff")), dtype=float)
     np.fill_diagonal(R, 1.0)
     pd = True
     C = Z
@@ -1004,9 +1077,9 @@ def search(ctx, broken):
     sizes = [7, 100]
     n = ctx.n(300, 3000)
     tried = 0
-    for kind in (None, "nonpd", "pd", "unit", "cancel", "partial", "pre:edit-recalc",
+    for kind in (None, "nonpd", "pd", "unit", "cancel", "partial", "zerocentre", "pre:edit-recalc",
                  "pre:pin-global"):
-        for _ in range(n // 8):
+        for _ in range(n // 9):
             c = gen_case(ctx.rng, sizes, **({"force_pre": kind[4:]} if (kind or "").startswith("pre:")
                                             else {"force_kind": kind}))
             o = observe(q, c)
